@@ -1085,6 +1085,20 @@ class BlockwiseRequest(BaseUnicastRequest, interfaces.Request):
         # FIXME this can probably be deduplicated against BlockwiseRequest
 
         if (
+            initial_response.opt.block2 is not None
+            and initial_response.opt.block2.block_number != 0
+            and (
+                request_to_repeat.opt.block2 is None
+                or request_to_repeat.opt.block2.block_number == 0
+            )
+        ):
+            # A later block -- even a final one -- is not the body that was
+            # asked for; passing it on would hand the application a truncated
+            # representation.
+            log.error("Error assembling blockwise response (expected first block)")
+            raise error.UnexpectedBlock2()
+
+        if (
             initial_response.opt.block2 is None
             or initial_response.opt.block2.more is False
         ):
